@@ -17,6 +17,7 @@ import (
 	distrtypes "github.com/chain4energy/c4e-chain/x/cfedistributor/types"
 	sdk "github.com/cosmos/cosmos-sdk/types"
 	sdkerrors "github.com/cosmos/cosmos-sdk/types/errors"
+	authtypes "github.com/cosmos/cosmos-sdk/x/auth/types"
 )
 
 type failer interface {
@@ -178,6 +179,13 @@ func (r *DistrRun) Inject(a DAcc, denom string, amt *big.Int) {
 	coins := sdk.NewCoins(sdk.NewCoin(denom, sdk.NewIntFromBigInt(amt)))
 	ad := distrAddrOf(a)
 	if name, ok := moduleNameByAddr[ad]; ok {
+		if acc := r.W.App.AccountKeeper.GetAccount(r.Ctx, ModuleAddr(name)); acc != nil {
+			if _, isModule := acc.(authtypes.ModuleAccountI); !isModule {
+				// an account of another type sits at the module account's address (C10: a fee allowance created it):
+				// no module transfer can reach it on a chain either, nothing is injected
+				return
+			}
+		}
 		FundModule(r.W.App, r.Ctx, name, coins)
 	} else {
 		acc, _ := sdk.AccAddressFromBech32(ad)
